@@ -132,6 +132,34 @@ pub mod pxe1 {
 }
 pub mod pxe2 {
     bodies!(PxE2, 2);
+    /// FB < 32: only inputs whose fraction has at most FB significant bits (wide N: the Newton-Raphson kernel is out of
+    /// solver reach on the full domain, exactly as for P32E2)
+    pub fn sqrt_fbits<const N: u32, const FB: u32, S: Src>(s: &mut S) -> Outcome {
+        let x = match draw::<N, S>(s) {
+            Some(x) => x,
+            None => return Outcome::skip(),
+        };
+        if r::is_real(N, x) && !r::sign_of(N, x) {
+            crate::assume!(s, r::dec(N, 2, x).2 << 1 << FB == 0);
+        }
+        let got = mk::<N>(x).sqrt().to_bits();
+        let want = if r::sign_of(N, x) {
+            r::nar(N)
+        } else if x == 0 {
+            0
+        } else if !S::SYMBOLIC {
+            r::native_sqrt(N, 2, x)
+        } else {
+            let (nn, _) = r::sqrt_radicand(N, 2, x);
+            let w = s.u64();
+            crate::assume!(s, w >= (1u64 << 48) && w < (1u64 << 49));
+            let ww = w as u128;
+            crate::assume!(s, ww * ww <= nn && nn < (ww + 1) * (ww + 1));
+            r::sqrt_from_root(N, 2, x, w)
+        };
+        cover!((got >> (32 - N)) & 1 == 1);
+        cmp_n(N, got, want)
+    }
     pub fn sqrt<const N: u32, S: Src>(s: &mut S) -> Outcome {
         let x = match draw::<N, S>(s) {
             Some(x) => x,
